@@ -417,8 +417,28 @@ func (m *mirror) addVote(precommit bool, id int, target string, pos int, smH uin
 			if m.wouldOrphan(smH, smR, haveSM, pending) {
 				return "would-orphan"
 			}
-			if precommit && vi.maj(pf.PrecBest) {
-				return "mirror-A5" // kernel: "TODO: handle a majority precommit for NextRound"
+			if precommit && vi.maj(pf.PrecBest) && vk.Excluded("C09-A5") {
+				return "mirror-A5" // kernel before d02baf8: "TODO: handle a majority precommit for NextRound"
+			}
+			if precommit {
+				// d02baf8: the round jumped to is then handled like any voting round; it may be left at once.
+				if sh, _ := m.votingShift(pv); sh == shAdvance && haveSM && !pending && smH == m.voting.H && m.voting.R+2 > smR+2 {
+					return "would-orphan"
+				}
+			}
+		}
+	}
+	if precommit && target != "" {
+		// Safe network: once some round of this height held a > 2/3 precommit certificate for a block,
+		// more than 1/3 of the power is honest and locked on it, so no other block of the height can
+		// reach > 2/3 precommits (the machine's own possible precommit counted in).
+		if have, ok := m.w.certified[v.H]; ok && have != target {
+			mask := pv.Precommits[target]
+			if vi.self >= 0 && !m.w.cfg.Follower && pv.voted(true)&(1<<uint(vi.self)) == 0 {
+				mask |= 1 << uint(vi.self)
+			}
+			if vi.maj(vi.power(mask)) {
+				return "unsafe-second-certificate"
 			}
 		}
 	}
@@ -426,6 +446,9 @@ func (m *mirror) addVote(precommit bool, id int, target string, pos int, smH uin
 		v.Precommits[target] |= bit
 	} else {
 		v.Prevotes[target] |= bit
+	}
+	if precommit {
+		m.noteCertificate(v)
 	}
 	m.markUpdated(id)
 	switch id {
@@ -441,9 +464,27 @@ func (m *mirror) addVote(precommit bool, id int, target string, pos int, smH uin
 		}
 		if vi.min(tot) {
 			m.jumpVotingRound()
+			if precommit && !vk.Excluded("C09-A5") {
+				m.checkVotingPrecommitShift()
+			}
 		}
 	}
 	return ""
+}
+
+// noteCertificate records the block of a > 2/3 precommit certificate. A second certificate for a
+// different block at the same height can only exist with >= 1/3 faulty voting power.
+func (m *mirror) noteCertificate(v *mmView) {
+	f := m.w.facts(v)
+	if !f.PrecMajTarget || f.PrecBestHash == "" {
+		return
+	}
+	if have, ok := m.w.certified[v.H]; !ok {
+		m.w.certified[v.H] = f.PrecBestHash
+		m.w.certRound[v.H] = v.R
+	} else if have != f.PrecBestHash {
+		m.w.twoBlocks = true
+	}
 }
 
 // addPH ports addProposedHeader.
@@ -506,6 +547,9 @@ func (m *mirror) ownAction(e *entranceRec, act tmeil.StateMachineRoundAction, sm
 		v.Prevotes[ss.TargetHash] |= bit
 	}
 	m.markUpdated(id)
+	if precommit {
+		m.noteCertificate(v)
+	}
 	if precommit && id == vidVoting {
 		// The machine's own precommit can complete a quorum; the same lag
 		// constraint applies (the machine is in this round, so never orphaned).
